@@ -426,6 +426,12 @@ def c11(ctx):
     ctx.tlc_check("MC_JsonPatchGuard.tla", "MC_JsonPatchGuard_neg.cfg", expect_violation=True,
                   label="negative configuration: validator without the from conjunct")
     ctx.negctl_replay(["guard-replay"], summ["_first_edge"], flip_validated)
+    if ctx.tier != "quick":
+        n = ctx.tlaps_check("GuardProofs.tla", needs=("JsonPatchGuard.tla",), abstract_ops=False,
+                            label="TLAPS: a list of ANY length that the intended validator lets through alters neither keys nor "
+                                  "services (GuardSufficesAlways, inductive invariant over Append1)")
+        ctx.assumptions.append("TLAPS proof (%d obligations) is about operation lists of any length over the pointer alphabet of "
+                               "JsonPatchGuard.tla; the code is bound to the model by the replay" % n)
     ctx.exhaustive = True
 
 
